@@ -52,8 +52,13 @@ func buildVC(prog *Program, key string) (*VC, error) {
 	}
 	vc := newVC(prog, fn, fc)
 	vc.Run()
-	// unresolved loop ordinals
+	// unresolved loop ordinals / call-site assertions
 	if fc != nil {
+		for i, cp := range fc.CallPres {
+			if vc.callPreHit[i] == 0 {
+				vc.unsupportedf("CONTRACT-UNRESOLVED callpre %s in %s: no such call in the function", cp.Callee, key)
+			}
+		}
 		for n := range fc.Loops {
 			if n >= len(vc.loops) {
 				vc.unsupportedf("CONTRACT-UNRESOLVED loop %d of %s: function has %d loops", n, key, len(vc.loops))
